@@ -592,3 +592,32 @@ def audit_bodies(rep, rule, bodies, audited, classes=('assert', 'panic', 'partia
                         'alloc': 'allocation sized by an unguarded value', 'unchecked': 'unchecked operation outside the audited list', 'leak': 'ownership-releasing call outside the audited list'}[s.kind]
                 rep.bad(rule, key, s.loc(), '%s: %s %s (macro: %s)' % (what, short(s.what), s.detail, s.mac or '-'))
     return used
+
+
+def audit_generated(rep, rule, bodies, audited, method_of):
+    """audit of corpus-generated bodies with construct-level keys (the emitted construct, not the corpus type)"""
+    seen = {}
+    for b in bodies:
+        rep.functions.add(b.id)
+        for s in collect_sites(b):
+            how = None
+            if discharge(s):
+                how = s.status + ': ' + s.reason
+            elif s.kind == 'assert':
+                how = auto_discharge_assert(s)
+            d = s.detail if s.kind == 'assert' else ''
+            d = re.sub(r'\barg\d+(\.\d+)*', 'cap', d)
+            key = '%s|generated:%s|%s|%s' % (s.kind, method_of(b), short(s.what) if s.kind != 'assert' else s.what, re.sub(r'\s+', ' ', d)[:120])
+            ent = seen.setdefault(key, {'n': 0, 'how': how, 'loc': s.loc(), 'site': s})
+            ent['n'] += 1
+            if how is None:
+                ent['how'] = None
+    for key, ent in sorted(seen.items()):
+        how = ent['how']
+        if how is None and key in audited:
+            how = 'audited: ' + audited[key]
+        if how is not None:
+            rep.ok(rule, key, '%s (%d sites in the corpus output)' % (how, ent['n']), ent['loc'])
+        else:
+            s = ent['site']
+            rep.bad(rule, key, ent['loc'], 'generated code: %s %s %s (%d sites in the corpus output, e.g. in %s)' % (s.kind, short(s.what), s.detail, ent['n'], s.body.key[:100]))
